@@ -106,3 +106,57 @@ func vhC40NoClients() {
 		vAssert("no-clients-error", left == 0 && err == ErrNoAvailableClients && len(calls) == 0)
 	}
 }
+
+// c40YieldFake lets other goroutines run while the balancer is reading loads.
+type c40YieldFake struct {
+	c40Fake
+}
+
+func (f *c40YieldFake) PendingRequests() int {
+	vYield()
+	return f.pending
+}
+
+// vhC40RemoveDuringCall: one call selecting among 2..3 clients (the selection
+// yields at every load it reads) while another goroutine removes clients:
+// no panic, and the call either goes to a client or reports that none is left.
+func vhC40RemoveDuringCall() {
+	n := 2 + vChoose("clients", 2)
+	var calls []int
+	var cc LBClient
+	for i := 0; i < n; i++ {
+		f := &c40YieldFake{c40Fake{id: i, pending: vChoose("pending", 3), calls: &calls}}
+		cc.Clients = append(cc.Clients, f)
+	}
+	removeFrom := vChoose("removeFrom", n) // clients with id ≥ removeFrom go away
+	done := make(chan struct{}, 2)
+	var err error
+	go func() {
+		var req Request
+		var resp Response
+		err = cc.DoDeadline(&req, &resp, time.Time{})
+		done <- struct{}{}
+	}()
+	left := -1
+	go func() {
+		vYield()
+		left = cc.RemoveClients(func(b BalancingClient) bool { return b.(*c40YieldFake).id >= removeFrom })
+		done <- struct{}{}
+	}()
+	<-done
+	<-done
+	vAssert("removal-result", left == removeFrom)
+	if err == nil {
+		vAssert("call-went-to-exactly-one-client", len(calls) == 1)
+	} else {
+		vAssert("only-no-available-clients-is-reported", err == ErrNoAvailableClients && len(calls) == 0)
+	}
+	var req Request
+	var resp Response
+	err2 := cc.DoDeadline(&req, &resp, time.Time{})
+	if removeFrom == 0 {
+		vAssert("no-clients-left-is-an-error-not-a-panic", err2 == ErrNoAvailableClients)
+	} else {
+		vAssert("remaining-clients-still-serve", err2 == nil && calls[len(calls)-1] < removeFrom)
+	}
+}
